@@ -642,3 +642,79 @@ func parseValues(txt string, m map[string]uint64) {
 		m[name] = v
 	}
 }
+
+// DumpQuery renders pc ∧ extra as a standalone SMT-LIB2 script (debugging, solver diffing).
+func DumpQuery(pc []*Term, extra *Term) string {
+	var sb strings.Builder
+	defined := map[int]bool{}
+	ufs := map[string]bool{}
+	var def func(t *Term)
+	ref := func(t *Term) string {
+		switch t.Op {
+		case OpConst:
+			return constStr(t)
+		case OpVar, OpArrVar:
+			return quoteName(t.Name)
+		}
+		return "t" + strconv.Itoa(t.ID)
+	}
+	def = func(t *Term) {
+		if t.Op == OpConst || defined[t.ID] {
+			return
+		}
+		for _, a := range t.Args {
+			def(a)
+		}
+		defined[t.ID] = true
+		switch t.Op {
+		case OpVar, OpArrVar:
+			fmt.Fprintf(&sb, "(declare-const %s %s)\n", quoteName(t.Name), sortStr(t))
+			return
+		case OpUF:
+			if !ufs[t.Name] {
+				ufs[t.Name] = true
+				fmt.Fprintf(&sb, "(declare-fun %s (", quoteName(t.Name))
+				for _, a := range t.Args {
+					sb.WriteString(sortStr(a) + " ")
+				}
+				fmt.Fprintf(&sb, ") %s)\n", wSort(t.W))
+			}
+		}
+		fmt.Fprintf(&sb, "(define-fun t%d () %s ", t.ID, sortStr(t))
+		switch t.Op {
+		case OpExtract:
+			fmt.Fprintf(&sb, "((_ extract %d %d) %s)", t.P1, t.P2, ref(t.Args[0]))
+		case OpZext:
+			fmt.Fprintf(&sb, "((_ zero_extend %d) %s)", t.P1, ref(t.Args[0]))
+		case OpSext:
+			fmt.Fprintf(&sb, "((_ sign_extend %d) %s)", t.P1, ref(t.Args[0]))
+		case OpUF:
+			if len(t.Args) == 0 {
+				sb.WriteString(quoteName(t.Name))
+			} else {
+				sb.WriteString("(" + quoteName(t.Name))
+				for _, a := range t.Args {
+					sb.WriteString(" " + ref(a))
+				}
+				sb.WriteString(")")
+			}
+		default:
+			sb.WriteString("(" + opNames[t.Op])
+			for _, a := range t.Args {
+				sb.WriteString(" " + ref(a))
+			}
+			sb.WriteString(")")
+		}
+		sb.WriteString(")\n")
+	}
+	all := append([]*Term(nil), pc...)
+	if extra != nil {
+		all = append(all, extra)
+	}
+	for _, t := range all {
+		def(t)
+		fmt.Fprintf(&sb, "(assert %s)\n", ref(t))
+	}
+	sb.WriteString("(check-sat)\n")
+	return sb.String()
+}
